@@ -170,6 +170,10 @@ def build(pp, prog, use_hook=None) -> Built:
                 b.act_tags[id(w)] = ["condTrue"] if val else ["condFalse", bool(kw.get("fatal", False))]
                 b._keep.append(w)
             continue
+        elif op == "cond_len":      # oracle-only: a condition that LOOKS at the tokens (not in the model's action library)
+            kw = dict(a[2]) if len(a) > 2 else {}
+            ref(a[0]).add_condition((lambda k: (lambda t: len(t) == k))(a[1]), call_during_try=kw.get("call_during_try", False))
+            continue
         elif op == "set_name":
             ref(a[0]).set_name(a[1])
             continue
